@@ -182,9 +182,12 @@ def run(rep, tier, seed):
     Li = make_licensing(IT)
     def P(k, e=0):
         return [0, [0, [enc_str(k), e]]]
-    for unk in ('GPL foo 2.0', 'GNU Lesser 2.1 only plus', 'GNU foo Lesser 2.1 plus', 'GPL zz yy 2.0', 'classpath my exception 2.0', 'GNU Lesser'):
+    # ... and names that end in a character a reader might take for punctuation (a dot is a key character), standing last
+    for unk in ('GPL foo 2.0', 'GNU Lesser 2.1 only plus', 'GNU foo Lesser 2.1 plus', 'GPL zz yy 2.0', 'classpath my exception 2.0', 'GNU Lesser',
+                'acme corp.', 'zeta inc.', 'v.', 'x+', 'y:', 'z-'):
         for src in (P(unk), [1, [P(unk), P('mit')]], [2, [[0, [1, [enc_str(unk), 0], [enc_str('cp'), 1]]], P('mit')]],
-                    [1, [P('mit'), [2, [P(unk), P('GPL 2.0'), P(unk)]]]]):
+                    [1, [P('mit'), [2, [P(unk), P('GPL 2.0'), P(unk)]]]], [2, [P('mit'), P(unk)]],
+                    [1, [P('mit'), [0, [1, [enc_str('GPL 2.0'), 0], [enc_str(unk), 0]]]]]):
             for producer in ('parse', 'dedup', 'simplify'):
                 recipe = {'producer': producer, 'source': src}
                 x = produce(Li, recipe, le)
